@@ -282,6 +282,63 @@ pub fn check_large_family(n: usize, st: &mut Stats) -> Vec<Violation> {
     out
 }
 
+/// cross-field family: conjunctions / unions over two text fields with different lengths and a field without
+/// frequencies, on 450-document corpora: the score TopDocs reports for a document equals the score the
+/// exhaustive collector computes for it and explain() agrees (the score must not depend on the collector)
+pub fn check_cross_field_family(st: &mut Stats) -> Vec<Violation> {
+    let mut out = vec![];
+    for (ci, c) in [
+        crate::c06::PruneCorpus { n: 450, hot_pos: 128, hot_term: 0, hot_tf: 6, layout: 0, period_shift: 0, perm: 0 },
+        crate::c06::PruneCorpus { n: 450, hot_pos: 255, hot_term: 3, hot_tf: 6, layout: 1, period_shift: 1, perm: 3 },
+    ]
+    .iter()
+    .enumerate()
+    {
+        let index = crate::c06::build_prune_index(c);
+        let searcher = index.reader().unwrap().searcher();
+        let nq = crate::c06::cross_field_queries(&index).len();
+        for qi in 0..nq {
+            st.eval();
+            st.count("cross_field_queries");
+            let (name, q, clauses) = crate::c06::cross_field_queries(&index).remove(qi);
+            let case = json!({"kind":"cross_field","corpus":ci,"query_index":qi});
+            // collector independence
+            let q2 = crate::c06::cross_field_queries(&index).remove(qi).1;
+            match catch_unwind(AssertUnwindSafe(|| crate::c06::check_prune_query(&index, q2, clauses, &[1, 3, 10, 500], 1))) {
+                Ok(None) => {}
+                Ok(Some((rule, what))) if rule.ends_with("_avgdl_shift") || rule.starts_with("topk_not_the_best") => {
+                    let _ = what; // ranking matters belong to C06
+                }
+                Ok(Some((rule, what))) => out.push(Violation::new("score_depends_on_collector", format!("cross-field query {name} on corpus {ci}: {rule}: {what}"), case.clone())),
+                Err(e) => out.push(Violation::new("score_panic", format!("cross-field query {name}: {}", panic_message(e)), case.clone())),
+            }
+            // explain agrees with the exhaustive score
+            let all = match searcher.search(&q, &AllScores) {
+                Ok(a) => a,
+                Err(e) => {
+                    out.push(Violation::new("search_error", format!("{e:?}"), case.clone()));
+                    continue;
+                }
+            };
+            for (score, addr) in all.iter().step_by(7) {
+                st.count("cross_field_explains");
+                match q.explain(&searcher, *addr) {
+                    Ok(ex) if close(ex.value() as f64, *score as f64) => {}
+                    Ok(ex) => {
+                        out.push(Violation::new("explain_differs", format!("cross-field query {name} on corpus {ci}, document {addr:?}: explain().value() = {}, collected score = {score}", ex.value()), case.clone()));
+                        break;
+                    }
+                    Err(e) => {
+                        out.push(Violation::new("explain_error", format!("cross-field query {name}, document {addr:?}: {e:?}"), case.clone()));
+                        break;
+                    }
+                }
+            }
+        }
+    }
+    out
+}
+
 fn tiny_docs(texts: &[String]) -> Vec<ModelDoc> {
     texts.iter().enumerate().map(|(i, t)| ModelDoc::from_text(i as u64 + 1, t)).collect()
 }
@@ -403,6 +460,10 @@ pub fn check_fieldnorm_family(max_len: usize, st: &mut Stats) -> Option<Violatio
 
 pub fn replay(case: &Value) -> Vec<Violation> {
     quiet_panics();
+    if case["kind"] == "cross_field" {
+        let mut st = Stats::default();
+        return check_cross_field_family(&mut st).into_iter().filter(|v| v.case["corpus"] == case["corpus"] && v.case["query_index"] == case["query_index"]).collect();
+    }
     if case["kind"] == "fieldnorm_family" {
         let mut st = Stats::default();
         return check_fieldnorm_family(case["max_len"].as_u64().unwrap_or(300) as usize, &mut st).into_iter().collect();
@@ -544,12 +605,20 @@ pub fn run(ctx: &Ctx) -> Report {
         Err(e) => st2.errors.push(format!("large-segment family: {}", panic_message(e))),
     }
     st2.nontrivial(&("large_family", n_large));
+    match catch_unwind(AssertUnwindSafe(|| check_cross_field_family(&mut st2))) {
+        Ok(vs) => {
+            for v in vs {
+                st2.violation(v);
+            }
+        }
+        Err(e) => st2.errors.push(format!("cross-field family: {}", panic_message(e))),
+    }
     st.merge(st2);
     rep.set("exhaustive", done == corpora.len());
     rep.set("corpora", corpora.len() as u64);
     rep.set("queries", nq as u64);
     rep.set("fieldnorm_family_max_len", max_len as u64);
-    rep.set("rule", "every multiset of 1..2 (thorough 3) documents over texts of <= 3 tokens over {a,b} x every contiguous segmentation x every delete subset x 24 scoring queries (term, phrase, boolean should / must / must-not, boost, const-score, dis-max with tie breakers, nestings): every collected score vs an independent BM25 evaluation from the searcher statistics, explain().value(), TopDocs for several K, and (without deletes) bit-identical single-clause scores across all segmentations; field-length family: one document per length at / around every quantisation bucket boundary up to the bound; large-segment family: 9000 (thorough 20000) documents in one segment and in two segments with deletes at the 4096-document window boundaries x 9 union / dis-max / minimum-should-match queries, every document's score, explain and TopDocs. Non-trivial: corpus with a non-empty document; distinct by corpus");
+    rep.set("rule", "every multiset of 1..2 (thorough 3) documents over texts of <= 3 tokens over {a,b} x every contiguous segmentation x every delete subset x 24 scoring queries (term, phrase, boolean should / must / must-not, boost, const-score, dis-max with tie breakers, nestings): every collected score vs an independent BM25 evaluation from the searcher statistics, explain().value(), TopDocs for several K, and (without deletes) bit-identical single-clause scores across all segmentations; field-length family: one document per length at / around every quantisation bucket boundary up to the bound; large-segment family: 9000 (thorough 20000) documents in one segment and in two segments with deletes at the 4096-document window boundaries x 9 union / dis-max / minimum-should-match queries, every document's score, explain and TopDocs; cross-field family: 7 unions / conjunctions / required-optional queries over two text fields with different lengths and a field without frequencies on two 450-document corpora: TopDocs scores for K in {1,3,10,500} equal the exhaustive collector's and explain agrees. Non-trivial: corpus with a non-empty document; distinct by corpus");
     if st.counters.get("large_segment_scores").copied().unwrap_or(0) < 10_000 {
         rep.machinery_errors.push("vacuous: large-segment family scored too few documents".into());
     }
